@@ -309,6 +309,10 @@ def main(ctx):
         for opts in ({"global_minimum_across_samplers": True}, {}):
             lu = [{"cls": first, "bs": 3}, {"cls": "ParticleSwarm", "bs": 2, "opts": opts}, {"cls": "BestBatch", "bs": 2}]
             cells.append({"cfg": {"lineup": lu, "model": "ident2", "ensemble": 1, "seed": S, "dims": 2, "loss": "minkowski", "lower": -3.3, "upper": 7.1, "precision": 0.7}, "seqs": [[3, 3, 2], [1] * 8]})
+    # a model that modifies the parameter vector it is handed (in place): the recorded row must stay what the sampler proposed
+    for lu in (lus[0], lus[13], lus[22]):
+        for ens in (1, 3):
+            cells.append({"cfg": {"lineup": lu, "model": "mutating2", "ensemble": ens, "seed": S, "dims": 2, "loss": "minkowski"}, "seqs": [[2, 1]]})
     # larger-scope probes: ensemble 5, batch sizes 7 and 5, four samplers, ten batches
     big = [{"cls": c, "bs": b} for c, b in zip(("Halton", "BestBatch", "RandomUniform", "ParticleSwarm"), (7, 5, 4, 3))]
     cells.append({"cfg": {"lineup": big, "model": "ident2", "ensemble": 5, "seed": S, "dims": 3, "loss": "minkowski"}, "seqs": [[4, 3, 3], [10]]})
